@@ -73,11 +73,12 @@ class Sut:
         self.rec = Recorder()
         self.g.add_writer(self.rec)
         self.ctx = []          # live context managers (not deep-copyable)
+        self.made = []         # context-manager objects obtained but not entered yet
         self.model = None
 
     @property
     def copyable(self):
-        return not self.ctx
+        return not self.ctx and not self.made
 
     def snapshot(self):
         return copy.deepcopy(self)
@@ -99,6 +100,16 @@ class Sut:
                 for part in args[0].split("."):
                     target = getattr(target, part)
                 cm = target(*args[1:], **kwargs)
+                cm.__enter__()
+                self.ctx.append(cm)
+            elif name == "make":
+                # cm = g.current_transform() now, `with cm:` later: whatever the block saves, it saves on entry
+                target = self.g
+                for part in args[0].split("."):
+                    target = getattr(target, part)
+                self.made.append(target(*args[1:], **kwargs))
+            elif name == "enter-made":
+                cm = self.made.pop()
                 cm.__enter__()
                 self.ctx.append(cm)
             elif name == "exit":
